@@ -103,6 +103,8 @@ func uninterp[T any](name string, args ...any) T { var z T; return z }
 //@ ensures div: op == ast.BinaryDiv && rhs != 0 && fitsInt64(lhs / rhs) ==> r1 == nil && r0 == lhs / rhs
 //@ ensures mod: op == ast.BinaryMod && rhs != 0 ==> r1 == nil && r0 == lhs % rhs
 //@ ensures zero: (op == ast.BinaryDiv || op == ast.BinaryMod) && rhs == 0 ==> r1 != nil && errIs(r1, ErrVerbose)
+//@ ensures [C05] class: r1 != nil ==> (errIs(r1, ErrVerbose) && errIs(r1, ErrExecution)) || errIs(r1, ErrInvalid)
+//@ ensures [C05] math-op-never-invalid: op >= ast.BinaryAdd && op <= ast.BinaryMod ==> !errIs(r1, ErrInvalid)
 //@ ensures nowrap-add: op == ast.BinaryAdd && !fitsInt64(lhs + rhs) ==> r1 != nil
 //@ ensures nowrap-sub: op == ast.BinarySub && !fitsInt64(lhs - rhs) ==> r1 != nil
 //@ ensures nowrap-mul: op == ast.BinaryMul && !fitsInt64(lhs * rhs) ==> r1 != nil
@@ -283,6 +285,7 @@ func uninterp[T any](name string, args ...any) T { var z T; return z }
 //@ func (*Executor).executeItemOptUnwrapResultSilent
 //@ props C08 C10
 //@ requires node != nil
+//@ requires unwrap && exec.path.IsLax() ==> found != nil
 //@ ensures [C08] silenced: callarg[bool](exec.executeItemOptUnwrapResult, "unwrap") == unwrap && ncalls(exec.executeItemOptUnwrapResult) == 1 && r0 == callret[resultStatus](exec.executeItemOptUnwrapResult, 0) && r1 == callret[error](exec.executeItemOptUnwrapResult, 1)
 //@ ensures [C08] never-verbose: !errIs(r1, ErrVerbose)
 //@ ensures [C08 C09] restored: exec.verbose == old(exec.verbose)
@@ -499,12 +502,12 @@ func isUnknownSpec(a predOutcome) predOutcome {
 //@ func (*Executor).executePredicate
 //@ props C12 C10
 //@ requires left != nil
-//@ loop 1 invariant [C20 C05] no-pending: pendingErr() == nil
+//@ loop 1 invariant [C20 C05] no-pending: pendingErr() == nil && !pendingFailed()
 //@ loop 1 invariant [C12] flags: (found ==> exec.path.IsStrict()) && (hasErr ==> !exec.path.IsStrict())
 //@ loop 1 invariant [C12] lax-none-true: !exec.path.IsStrict() ==> forall(func(i int, j int) bool { return implies(0 <= i && i <= rangeindex1 && 0 <= j && j < len(rSeq.list), dynret[predOutcome](callback, 0, ctx, pred, lSeq.list[i], rSeq.list[j]) != predTrue) })
 //@ loop 1 invariant [C12] strict-none-unknown: exec.path.IsStrict() ==> forall(func(i int, j int) bool { return implies(0 <= i && i <= rangeindex1 && 0 <= j && j < len(rSeq.list), dynret[predOutcome](callback, 0, ctx, pred, lSeq.list[i], rSeq.list[j]) != predUnknown) })
 //@ loop 1 invariant [C12] all-false-so-far: !found && !hasErr ==> forall(func(i int, j int) bool { return implies(0 <= i && i <= rangeindex1 && 0 <= j && j < len(rSeq.list), dynret[predOutcome](callback, 0, ctx, pred, lSeq.list[i], rSeq.list[j]) == predFalse) })
-//@ loop 2 invariant [C20 C05] no-pending: pendingErr() == nil
+//@ loop 2 invariant [C20 C05] no-pending: pendingErr() == nil && !pendingFailed()
 //@ loop 2 invariant [C12] flags: (found ==> exec.path.IsStrict()) && (hasErr ==> !exec.path.IsStrict())
 //@ loop 2 invariant [C12] lax-none-true: !exec.path.IsStrict() ==> forall(func(i int, j int) bool { return implies(0 <= i && 0 <= j && j < len(rSeq.list) && (i < rangeindex1 || (i == rangeindex1 && j <= rangeindex2)), dynret[predOutcome](callback, 0, ctx, pred, lSeq.list[i], rSeq.list[j]) != predTrue) })
 //@ loop 2 invariant [C12] strict-none-unknown: exec.path.IsStrict() ==> forall(func(i int, j int) bool { return implies(0 <= i && 0 <= j && j < len(rSeq.list) && (i < rangeindex1 || (i == rangeindex1 && j <= rangeindex2)), dynret[predOutcome](callback, 0, ctx, pred, lSeq.list[i], rSeq.list[j]) != predUnknown) })
@@ -661,3 +664,30 @@ func isUnknownSpec(a predOutcome) predOutcome {
 //@ atcall executeNextItem assert [C13] numeric-only: arg_found == found && (is[int64](v) || is[float64](v) || is[json.Number](v))
 //@ atcall executeNextItem assert [C13] int-negated: is[int64](v) ==> arg_value == any(dynret[int64](intCallback, 0, as[int64](v)))
 //@ atcall executeNextItem assert [C13] float-negated: is[float64](v) ==> arg_value == any(dynret[float64](floatCallback, 0, as[float64](v)))
+
+// ---------------------------------------------------------------------------
+// compare.go: one order per type
+
+//@ func compareNumeric
+//@ props C12 C05
+//@ mode bv
+//@ requires (is[int64](left) || is[float64](left) || is[json.Number](left)) && (is[int64](right) || is[float64](right) || is[json.Number](right))
+//@ ensures [C12] int-int: is[int64](left) && is[int64](right) ==> (r0 < 0) == (as[int64](left) < as[int64](right)) && (r0 == 0) == (as[int64](left) == as[int64](right)) && (r0 > 0) == (as[int64](left) > as[int64](right))
+//@ ensures [C12] float-float: is[float64](left) && is[float64](right) && !isNaN(as[float64](left)) && !isNaN(as[float64](right)) ==> (r0 < 0) == (as[float64](left) < as[float64](right)) && (r0 == 0) == (as[float64](left) == as[float64](right)) && (r0 > 0) == (as[float64](left) > as[float64](right))
+//@ ensures [C12] local-int-float-exact: is[int64](left) && is[float64](right) && !isNaN(as[float64](right)) ==> (r0 < 0) == (exactCmpIF(as[int64](left), as[float64](right)) < 0) && (r0 > 0) == (exactCmpIF(as[int64](left), as[float64](right)) > 0)
+//@ ensures [C12] local-float-int-exact: is[float64](left) && is[int64](right) && !isNaN(as[float64](left)) ==> (r0 > 0) == (exactCmpIF(as[int64](right), as[float64](left)) < 0) && (r0 < 0) == (exactCmpIF(as[int64](right), as[float64](left)) > 0)
+//@ ensures [C12] three-way: r0 == -1 || r0 == 0 || r0 == 1
+
+//@ func (*Executor).compareItems
+//@ props C12 C05
+//@ requires is[*ast.BinaryNode](node) && as[*ast.BinaryNode](node).Operator() >= ast.BinaryEqual && as[*ast.BinaryNode](node).Operator() <= ast.BinaryGreaterOrEqual
+//@ ensures [C12] null-vs-nonnull: (left == nil) != (right == nil) ==> r1 == nil && r0 == ite(as[*ast.BinaryNode](node).Operator() == ast.BinaryNotEqual, predTrue, predFalse)
+//@ ensures [C12] null-null: left == nil && right == nil ==> r1 == nil && r0 == ite(as[*ast.BinaryNode](node).Operator() == ast.BinaryEqual || as[*ast.BinaryNode](node).Operator() == ast.BinaryLessOrEqual || as[*ast.BinaryNode](node).Operator() == ast.BinaryGreaterOrEqual, predTrue, predFalse)
+//@ ensures [C12] bool-mixed: is[bool](left) && right != nil && !is[bool](right) ==> r0 == predUnknown && r1 == nil
+//@ ensures [C12] number-mixed: (is[int64](left) || is[float64](left) || is[json.Number](left)) && right != nil && !(is[int64](right) || is[float64](right) || is[json.Number](right)) ==> r0 == predUnknown && r1 == nil
+//@ ensures [C12] string-mixed: is[string](left) && right != nil && !is[string](right) ==> r0 == predUnknown && r1 == nil
+//@ ensures [C12] containers: is[[]any](left) || is[map[string]any](left) ==> (right != nil ==> r0 == predUnknown && r1 == nil)
+//@ ensures [C12] string-eq: is[string](left) && is[string](right) && as[*ast.BinaryNode](node).Operator() == ast.BinaryEqual ==> r1 == nil && r0 == ite(as[string](left) == as[string](right), predTrue, predFalse)
+//@ ensures [C12] bool-order: is[bool](left) && is[bool](right) && as[*ast.BinaryNode](node).Operator() == ast.BinaryLess ==> r1 == nil && r0 == ite(!as[bool](left) && as[bool](right), predTrue, predFalse)
+//@ ensures [C08 C12] never-verbose: !errIs(r1, ErrVerbose)
+//@ ensures [C05] never-invalid-for-items: !errIs(r1, ErrInvalid) || !(left == nil || is[bool](left) || is[int64](left) || is[float64](left) || is[json.Number](left) || is[string](left) || is[[]any](left) || is[map[string]any](left) || is[*types.Date](left) || is[*types.Time](left) || is[*types.TimeTZ](left) || is[*types.Timestamp](left) || is[*types.TimestampTZ](left))
